@@ -116,7 +116,7 @@ func VerifHarness_C10_crash() {
 	ctx := context.Background()
 	maxDepth := 3 // depth 3 reverts into the middle of a header file with a whole file above it
 	if verifrt.Thorough() {
-		maxDepth = 5
+		maxDepth = 6
 	}
 	depth := 1 + verifrt.Choose("reorg-depth", maxDepth)
 	// the node downloads every block, or is still before its start block (headers only)
@@ -140,7 +140,9 @@ func VerifHarness_C10_crash() {
 // VerifHarness_C10_fault: the j-th storage operation returns an error.
 func VerifHarness_C10_fault() {
 	ctx := context.Background()
-	depth := 1 + verifrt.Choose("reorg-depth", 3)
+	// (depth 6 reverts from the third header file into the first one: two whole files are removed
+	// before the surviving one is re-written)
+	depth := 1 + verifrt.Choose("reorg-depth", 6)
 	headersOnly := verifrt.Choose("headers-only-phase", 2) == 1
 	w, forkTip, _ := c10World(ctx, depth, headersOnly)
 	store := w.k.store
